@@ -7,6 +7,8 @@ turns every node into the expression (payload, outputs, {input name: (parent exp
 output name)}); the expression of every sink is taken BEFORE the transformation (the
 transformers write nodes in place) and compared with the expression of the corresponding
 sink of the result; plus the extra claims for dedup / split / expand.
+Expansion: sub-graph templates with no / explicit input and output maps of every shape (empty, partial, identity, swapping,
+fan-in, extra keys) whose node names collide with the names the maps talk about (gen_template_maps, SHAPES).
 Correspondence: the Gallina models (coq/theories/Graph/{Engine,Copy,Rename,Dedup,Split,
 Expand,Fuse}.v) are evaluated inside Coq on the same graphs and compared with the observed
 result graph up to renumbering of nodes (exact names, outputs, payloads, inputs and their
@@ -31,6 +33,10 @@ ASSUMPTIONS = [
     "C11_split_rejoin / C11_split_cuts_exact_partial: key function, key equality and the cut-name hash are arbitrary parameters; re-joining = the source node of a cut denotes the output the cut replaced (sem_rj); "
     "C11_split_partition: key equality is equality (keqb a b = true <-> a = b). That distinct cut edges get distinct names (CutEdge.name is a hash) is outside the model: the oracle checks it on adversarial field texts",
     "C11_dedup_idempotent: pred decides payload equality; sink order of the model (the implementation's set order is matched by the checker)",
+    "C11_expand_sources: input maps are association lists with distinct keys (a Python dict); the default Splicer (splice_source / splice_sink not overridden)",
+    "C11_expand_splice_sem: the sub-graph is acyclic and the node's transformed inputs live in the result heap; the reading of the sub-graph with its bound sources connected (ssem) is a definition of "
+    "Graph/ExpandSplice.v. C11_expand_preserves_contract_partial: hypothesis sub_denotes on every answer of the expander (for the interpretation at hand: the sub-graph computes what the node computes "
+    "from the inputs the input map binds); conclusion only for sinks that are not expanded themselves",
     "C11_expand_preserves_partial: hypothesis splice_denotes (every spliced sub-graph denotes the node it replaces, stated on the result of the model's splice step); the expander returns a FRESH sub-graph on every call",
     "C11_fuse_preserves: node.inputs is a dict (distinct input names); the callback contract (result refers to existing nodes only, keeps the child's other inputs, denotes the child when the child's input cin is fed by "
     "something denoting the parent's output) -- the harness's `inline` callback is checked against this reading by the oracle (fused nodes are read as child-with-parent-inlined), not proved to satisfy it",
@@ -657,6 +663,171 @@ def gen_template(rng, nd):
     return {"spec": {"nodes": nodes, "sinks": sinks}, "imap": imap if use_imap else None, "omap": omap if use_omap else None}
 
 
+def gen_template_maps(rng, nd):
+    """a sub-graph for node spec nd whose node names COLLIDE on purpose with the names the maps talk about.
+    The input map is None or an explicit (empty / partial / identity / swapping / fan-in / extra-keys) map from a small
+    set of candidate names (the node's input names, its output names, a few fresh names) to the node's input names; the
+    sub-graph's own sources, processors and sinks draw their names from the same candidates.  So there are sources that
+    are named like a node input but are NOT keys of an explicit map (they must stay sources), sources named like the input
+    another source is mapped to, two sources fed by one input, maps that swap two input names, keys that name no source
+    (or a processor); likewise on the output side: non-injective and swapping output maps, keys that are not outputs,
+    inner sinks named like an output that the map sends elsewhere."""
+    inames = [i for i, _, _ in nd["inputs"]]
+    outs = list(dict.fromkeys(["0"] if nd["outputs"] is None else nd["outputs"]))
+    fresh = [n for n in SUBNAMES if n not in inames and n not in outs]
+    rng.shuffle(fresh)
+    cand = list(dict.fromkeys(inames + [fresh.pop(), fresh.pop()] + (outs[:1] if rng.random() < 0.3 else [])))
+    # ---- input map
+    ishape = rng.choice(["none", "empty", "partial", "partial", "partial", "identity", "swap", "fan", "random", "random"]) if inames else rng.choice(["none", "empty"])
+    imap = {}
+    if ishape == "partial":
+        for iname in rng.sample(inames, rng.randrange(1, len(inames) + 1) if len(inames) > 1 else 1):
+            if rng.random() < 0.8:
+                imap[rng.choice([c for c in cand if c not in imap])] = iname
+        if len(imap) == len(inames) and len(inames) > 1:
+            del imap[rng.choice(list(imap))]
+    elif ishape == "identity":
+        for iname in inames:
+            if rng.random() < 0.6:
+                imap[iname] = iname
+    elif ishape == "swap":
+        if len(inames) >= 2:
+            a, b = rng.sample(inames, 2)
+            imap[a], imap[b] = b, a
+        else:
+            imap[cand[-1]] = inames[0]
+    elif ishape == "fan":
+        a = rng.choice(inames)
+        for c in rng.sample(cand, 2):
+            imap[c] = a
+    elif ishape == "random":
+        for c in cand:
+            if rng.random() < 0.45:
+                imap[c] = rng.choice(inames)
+    if ishape != "none" and imap and rng.random() < 0.3:
+        items = list(imap.items())
+        rng.shuffle(items)
+        imap = dict(items)
+    # ---- sources: every key of the map mostly has its source; the other candidates (node input names that are not keys,
+    #      names of mapped inputs ...) are used for sources of the sub-graph's own
+    nodes, used = [], []
+    for c in cand:
+        p = 0.85 if c in imap else 0.6 if c in inames else 0.35
+        if rng.random() < p:
+            used.append(c)
+    if not used:
+        used.append(rng.choice(cand))
+    rng.shuffle(used)
+    for c in used:
+        nodes.append({"name": c, "outputs": rng.choice([None, None, None, ["0", "b"]]), "payload": rng.choice(PAYLOADS), "inputs": []})
+    # ---- output map
+    ocand = list(dict.fromkeys(outs + [fresh.pop(), fresh.pop()] + (inames[:1] if rng.random() < 0.3 else [])))
+    oshape = rng.choice(["none", "none", "empty", "rename", "rename", "swap", "fan", "extra", "random"] if len(outs) < 2 else
+                        ["none", "empty", "rename", "swap", "swap", "chain", "chain", "fan", "extra", "random"])
+    omap = {}
+    if oshape == "chain":                               # output a is sent to the leaf called like output b, b keeps its own
+        a, b = rng.sample(outs, 2)
+        omap[a] = b
+    elif oshape == "rename":
+        for o in outs:
+            if rng.random() < 0.7:
+                omap[o] = rng.choice([c for c in ocand if c not in outs] or ocand)
+    elif oshape == "swap":
+        if len(outs) >= 2:
+            a, b = rng.sample(outs, 2)
+            omap[a], omap[b] = b, a
+        elif outs:
+            omap[outs[0]] = ocand[-1]
+    elif oshape == "fan":
+        if outs:
+            leaf = rng.choice(ocand)
+            for o in outs:
+                omap[o] = leaf
+    elif oshape == "extra":
+        omap[ocand[-1]] = rng.choice(ocand)            # a key that is no output of the node
+        for o in outs:
+            if rng.random() < 0.4:
+                omap[o] = rng.choice(ocand)
+    elif oshape == "random":
+        for o in ocand:
+            if rng.random() < 0.5:
+                omap[o] = rng.choice(ocand)
+    sp_out = {o: (o if oshape == "none" else omap.get(o, o)) for o in outs}
+    # ---- processors, some named like a candidate of the input side (a processor called like a node input or a map key)
+    taken = set(used)
+    for _ in range(rng.choice([0, 1, 1, 2])):
+        k = rng.choice([1, 1, 2])
+        ins = []
+        for iname in rng.sample(["x", "y", "input", "s", "p"], k):
+            j = pick_parent(rng, nodes)
+            po = nodes[j]["outputs"]
+            ins.append([iname, j, "0" if po is None else rng.choice(po)])
+        bound = [c for c in (inames if ishape == "none" else list(imap)) if c not in taken]      # names the splicer binds -- for SOURCES only
+        free = [c for c in cand if c not in taken]
+        nm = rng.choice(bound) if bound and rng.random() < 0.4 else rng.choice(free) if free and rng.random() < 0.15 else fresh.pop()
+        taken.add(nm)
+        nodes.append({"name": nm, "outputs": None, "payload": rng.choice(PAYLOADS), "inputs": ins})
+    # ---- leaves: one per leaf name the outputs are sent to (mostly); inner sinks named like the other candidates
+    sinks = []
+    for lname in dict.fromkeys(sp_out.values()):
+        if rng.random() < 0.92:
+            j = pick_parent(rng, nodes)
+            po = nodes[j]["outputs"]
+            sinks.append(len(nodes))
+            nodes.append({"name": lname, "outputs": [] if rng.random() < 0.85 else None, "payload": rng.choice(PAYLOADS),
+                          "inputs": [[rng.choice(["x", "input", "s"]), j, "0" if po is None else rng.choice(po)]]})
+    hot = {v for k, v in omap.items() if k not in outs} | {o for o in outs if o not in sp_out.values()}      # names a wrong reading of the map would take for leaves
+    for c in list(dict.fromkeys(ocand + inames[:1])):
+        if c not in sp_out.values() and rng.random() < (0.75 if c in hot else 0.25):
+            j = pick_parent(rng, nodes)
+            po = nodes[j]["outputs"]
+            sinks.append(len(nodes))
+            nodes.append({"name": c, "outputs": [], "payload": rng.choice(PAYLOADS), "inputs": [["input", j, "0" if po is None else rng.choice(po)]]})
+    consumed = {j for n2 in nodes for (_, j, _) in n2["inputs"]}
+    for i in range(len(nodes)):
+        if i not in consumed and i not in sinks:
+            sinks.append(i)
+    if rng.random() < 0.3:
+        rng.shuffle(sinks)
+    return {"spec": {"nodes": nodes, "sinks": sinks}, "imap": None if ishape == "none" else imap, "omap": None if oshape == "none" else omap}
+
+
+def template_features(nd, t):
+    """which of the name-collision shapes a template shows (for the input-distribution histogram)"""
+    inames = [i for i, _, _ in nd["inputs"]]
+    outs = ["0"] if nd["outputs"] is None else list(nd["outputs"])
+    tn = t["spec"]["nodes"]
+    srcs = [x["name"] for x in tn if not x["inputs"]]
+    f = set()
+    if t["imap"] is not None:
+        m = t["imap"]
+        if inames and not m:
+            f.add("explicit-empty-input-map-on-node-with-inputs")
+        if any(s in inames and s not in m for s in srcs):
+            f.add("own-source-named-like-node-input-not-in-explicit-map")
+        if any(s in m.values() and s not in m for s in srcs):
+            f.add("own-source-named-like-a-mapped-input")
+        if len(set(m.values())) < len(m) and sum(1 for s in srcs if s in m) >= 2:
+            f.add("two-sources-on-one-input")
+        if any(k in inames and v != k for k, v in m.items()):
+            f.add("input-map-renames-across-input-names")
+        if any(k not in srcs for k in m):
+            f.add("input-map-key-names-no-source")
+    if any(x["inputs"] and x["name"] in inames for x in tn):
+        f.add("inner-node-named-like-node-input")
+    if t["omap"] is not None:
+        m = {o: t["omap"].get(o, o) for o in outs}
+        if len(set(m.values())) < len(m):
+            f.add("two-outputs-on-one-leaf")
+        if any(v in outs and v != o for o, v in m.items()):
+            f.add("output-map-renames-across-output-names")
+        if any(k not in outs for k in t["omap"]):
+            f.add("output-map-key-is-no-output")
+        if any(x["name"] in outs and x["name"] not in m.values() for x in tn):
+            f.add("sub-node-named-like-output-mapped-elsewhere")
+    return f
+
+
 def gen_rules(rng, spec):
     reach = sorted(reachable(spec))
     names = [spec["nodes"][i]["name"] for i in reach]
@@ -664,7 +835,7 @@ def gen_rules(rng, spec):
     for i in reach:
         nd = spec["nodes"][i]
         if names.count(nd["name"]) == 1 and rng.random() < 0.45:
-            rules[nd["name"]] = gen_template(rng, nd)
+            rules[nd["name"]] = gen_template_maps(rng, nd) if rng.random() < 0.55 else gen_template(rng, nd)
     return rules
 
 
@@ -953,6 +1124,36 @@ WITNESSES = [
                          "spec": {"nodes": [_n("x", None, {"i": 2}), _n("0", [], {"i": 3}, [("input", 0, "0")])], "sinks": [1]}}}}),
 ]
 
+# hand-written instances of map shapes the property quantifies over ("every ... input-map/output-map"), kept as fixed cases
+SHAPES = [
+    # explicit PARTIAL input map; the sub-graph's own constant source is called like the node input the map does not mention
+    ("expand", {"nodes": [_n("cam", None, {"s": "cam"}), _n("sky", None, {"s": "sky"}), _n("blend", None, {"s": "B"}, [("fg", 0, "0"), ("bg", 1, "0")]),
+                          _n("out", [], {"s": "w"}, [("input", 2, "0")])], "sinks": [3]},
+     {"rules": {"blend": {"imap": {"pix": "fg"}, "omap": {"0": "res"},
+                          "spec": {"nodes": [_n("pix", None, {"s": "unpack"}), _n("bg", None, {"s": "const"}), _n("mix", None, {"s": "mix"}, [("x", 0, "0"), ("y", 1, "0")]),
+                                             _n("res", [], {"s": "pack"}, [("input", 2, "0")])], "sinks": [3]}}}}),
+    # explicit EMPTY input map on a node with an input: nothing is bound, although a source is called like the input
+    ("expand", {"nodes": [_n("cam", None, {"s": "cam"}), _n("tone", None, {"s": "T"}, [("fg", 0, "0")]), _n("out", [], {"s": "w"}, [("input", 1, "0")])], "sinks": [2]},
+     {"rules": {"tone": {"imap": {}, "omap": None,
+                         "spec": {"nodes": [_n("fg", None, {"s": "curve"}), _n("0", [], {"s": "apply"}, [("x", 0, "0")])], "sinks": [1]}}}}),
+    # the map swaps the two input names; two sources on one input; a source called like the input the other one is mapped to
+    ("expand", {"nodes": [_n("p", None, {"i": 1}), _n("q", None, {"i": 2}), _n("sub", None, {"s": "S"}, [("a", 0, "0"), ("b", 1, "0")]), _n("w", [], None, [("input", 2, "0")])], "sinks": [3]},
+     {"rules": {"sub": {"imap": {"a": "b", "b": "a"}, "omap": None,
+                        "spec": {"nodes": [_n("a", None, {"s": "sa"}), _n("b", None, {"s": "sb"}), _n("0", [], {"s": "minus"}, [("x", 0, "0"), ("y", 1, "0")])], "sinks": [2]}}}}),
+    ("expand", {"nodes": [_n("p", None, {"i": 1}), _n("q", None, {"i": 2}), _n("sub", None, {"s": "S"}, [("a", 0, "0"), ("b", 1, "0")]), _n("w", [], None, [("input", 2, "0")])], "sinks": [3]},
+     {"rules": {"sub": {"imap": {"u": "a", "v": "a"}, "omap": None,
+                        "spec": {"nodes": [_n("u", None, {"s": "su"}), _n("v", None, {"s": "sv"}), _n("a", None, {"s": "own"}),
+                                           _n("0", [], {"s": "f"}, [("x", 0, "0"), ("y", 1, "0"), ("s", 2, "0")])], "sinks": [3]}}}}),
+    # output side: a swapping output map; a key that is no output whose value names an inner sink; an inner sink called like an output sent elsewhere
+    ("expand", {"nodes": [_n("r", None, {"i": 1}), _n("two", ["a", "b"], {"s": "T"}, [("x", 0, "0")]), _n("w", [], None, [("l", 1, "a"), ("r", 1, "b")])], "sinks": [2]},
+     {"rules": {"two": {"imap": None, "omap": {"a": "b", "b": "a"},
+                        "spec": {"nodes": [_n("x", None, {"s": "in"}), _n("a", [], {"s": "la"}, [("input", 0, "0")]), _n("b", [], {"s": "lb"}, [("input", 0, "0")])], "sinks": [1, 2]}}}}),
+    ("expand", {"nodes": [_n("r", None, {"i": 1}), _n("two", ["a", "b"], {"s": "T"}, [("x", 0, "0")]), _n("w", [], None, [("l", 1, "a"), ("r", 1, "b")])], "sinks": [2, 1]},
+     {"rules": {"two": {"imap": None, "omap": {"a": "L", "zz": "dump", "b": "L"},
+                        "spec": {"nodes": [_n("x", None, {"s": "in"}), _n("L", [], {"s": "leaf"}, [("input", 0, "0")]), _n("dump", [], {"s": "d"}, [("input", 0, "0")]),
+                                           _n("a", [], {"s": "inner"}, [("input", 0, "0")])], "sinks": [1, 2, 3]}}}}),
+]
+
 
 def nontrivial(spec):
     reach = reachable(spec)
@@ -998,13 +1199,15 @@ def run(ctx, res):
     warnings.simplefilter("ignore")
     res.rule = ("generated Node graphs (1..12 nodes; shared sub-expressions, multi-output nodes, several/duplicated sinks; node names sharing characters and prefixes "
                 "('main','min','main.min','m',...), output names partly real Node attributes, input names partly callback parameter names) run through each real "
-                "transformation. non-trivial = at least 3 reachable nodes and 1 edge; distinct = distinct (transformation, spec, parameters)")
+                "transformation; expanders return sub-graphs with no / explicit input and output maps (empty, partial, identity, swapping, several sources on one "
+                "input, several outputs on one leaf, keys naming no source / no output) whose node names collide with the node's input and output names and with the "
+                "map keys and values (histogram expand:*). non-trivial = at least 3 reachable nodes and 1 edge; distinct = distinct (transformation, spec, parameters)")
     cases = {tr: [] for tr in DRIVERS}
     metas = {tr: [] for tr in DRIVERS}
     per = ctx.n(100, 1500)
     for tr, drive in DRIVERS.items():
         rng = ctx.sub_rng("gen-" + tr)
-        for i in range(per):
+        for i in range(per + (ctx.n(30, 450) if tr == "expand" else 0)):      # expand has the largest parameter space (sub-graph x two maps)
             flavour = FLAVOURS[tr][i % len(FLAVOURS[tr])]
             spec = gen_spec(rng, flavour)
             out = {"coq": [], "params": {}, "flavour": flavour}
@@ -1014,6 +1217,12 @@ def run(ctx, res):
             case["params"] = out["params"]
             res.evaluations += 1
             features(spec, res, tr)
+            if tr == "expand":
+                byname = {nd["name"]: nd for nd in spec["nodes"]}
+                rules = rules_from_json(out["params"]["rules"])
+                for f in sorted(set().union(*[template_features(byname[k], t) for k, t in rules.items()])) if rules else []:
+                    res.count("expand:" + f)
+                res.count("expand:outside-domain" if out.get("outside") else "expand:inside-domain")
             res.count("flavour:" + flavour)
             if nontrivial(spec):
                 res.nontrivial_keys.add(json.dumps(case, sort_keys=True))
@@ -1031,6 +1240,20 @@ def run(ctx, res):
         bad = REPLAYERS[tr](spec_from_json(spec_j), params, out)
         res.evaluations += 1
         res.count("flavour:witness-of-fixed-defect")
+        for kind, term in out["coq"]:
+            cases[kind].append(term)
+            metas[kind].append(case)
+        if bad:
+            res.fail(bad[0], bad[1], case)
+    for tr, spec_j, params in SHAPES:
+        out = {"coq": [], "params": params}
+        case = {"kind": "spec", "transformation": tr, "flavour": "shape", "spec": spec_j, "params": params}
+        bad = REPLAYERS[tr](spec_from_json(spec_j), params, out)
+        res.evaluations += 1
+        res.count("flavour:hand-written-map-shape")
+        res.nontrivial_keys.add(json.dumps(case, sort_keys=True))
+        if out.get("outside"):
+            res.disagree("a hand-written map shape is read as outside the property's domain by the oracle", case)
         for kind, term in out["coq"]:
             cases[kind].append(term)
             metas[kind].append(case)
